@@ -34,10 +34,10 @@ def _digit(ch):
 
 def spec_parse(text, system):
     """None if text is not [sign]number[prefix]unit of the system; else (Fraction magnitude, prefix, unit).
-    number = digits, digits.digits or .digits (Unicode decimal digits); one trailing newline is tolerated
-    (Python's `$`, DESIGN O1)."""
+    number = digits, digits.digits or .digits (Unicode decimal digits); nothing may follow the unit (a trailing
+    newline included: repair fc24f32)."""
     if system not in SPEC_PREFIXES: return None
-    t = text[:-1] if text.endswith('\n') else text
+    t = text
     unit = None
     for u in ('bit', 'b', 'B'):
         if t.endswith(u): unit = u; t = t[:-len(u)]; break
@@ -92,7 +92,7 @@ def spec_value(text, system):
     return exact, tol, exact_rule, (sign < 0), max(abs(mag), abs(exact))
 
 def in_overflow_zone(text, system):
-    """known finding K14: the magnitude or the quantity of the admitted text does not fit binary64 (with the rounding slack)"""
+    """the magnitude or the quantity of the admitted text does not fit binary64 (with the rounding slack)"""
     v = spec_value(text, system)
     if v is None: return False
     exact, tol, _, _, big = v
@@ -304,9 +304,11 @@ def oracle(c, out):
             return None if out == 'EXN:ValueError' else '%s: not [sign]number[prefix]unit of a known unit system, yet gives %s' % (what, out)
         exact, tol, exact_rule, neg, big = sv
         if big + tol >= MAXF and not exact_rule:
-            # the quantity does not fit binary64: inf is the IEEE evaluation (no alarm); a finite answer must still be
-            # within rounding; anything else (OverflowError under return_int) is known finding K14
+            # the magnitude or the quantity does not fit binary64: without return_int inf is the IEEE evaluation
+            # (no alarm), with return_int the answer is ValueError (repair a183222; OverflowError was finding K14);
+            # a finite answer (close to the limit) must still be within rounding
             if out in ('f:inf', 'f:-inf') and not ri: return None
+            if out == 'EXN:ValueError' and ri: return None
             if out.startswith('EXN:') or 'inf' in out or 'nan' in out:
                 return '%s: quantity beyond binary64 gives %s' % (what, out)
         msg = _check_value(what, out, exact, tol, exact_rule, ri, neg)
@@ -346,21 +348,7 @@ def oracle(c, out):
     return None
 
 def zone(c):
-    if c.get('op') == 's2b' and in_overflow_zone(c['text'], c['u']): return 'K14'
-    if c.get('op') == 'xb':
-        if 'mag' in c:
-            mag, unit = c['mag'], c['unit']
-        else:
-            m = re.match(r'\s*([0-9]+[eE][-+][0-9]+|[0-9]*\.?[0-9]+)\s*(\w+)?', c['d'])
-            if not m: return None
-            mag, unit = m.group(1), m.group(2) or ''
-        if re.fullmatch(r'[0-9]+[eE][-+][0-9]+', mag):      # the code rewrites e-notation with format(float(), '.0f')
-            f = float(mag)
-            if f == float('inf'): return None
-            mag = format(f, '.0f')
-        u2 = unit + 'B' if len(unit) == 1 and unit != 'B' else unit
-        if re.fullmatch(r'[0-9]*\.?[0-9]+', mag) and in_overflow_zone(mag + u2, 'IEC'): return 'K14'
-    return None
+    return None      # no known finding is open for C10 (D5, K14 and NL are repaired: `fixed:` lines)
 
 def extra_checks(rng, tier):
     """QemuImgInfo end to end: the three size fields go through _extract_bytes (same value / same exception class)"""
@@ -409,17 +397,18 @@ TRUSTED = ['CPython float()/int()/float arithmetic/math.ceil/format(.0f)/re mode
            're-validated bit-exactly against the running interpreter on every run (ops pf_*), the regex engine on the generated patterns (ops rx, rxs)',
            'int() digit limit: CPython default 4300 (sys.get_int_max_str_digits) is a constant of the model']
 ASSUMPTIONS = ['text and unit_system are str (non-str arguments are outside the statement)',
-               'known finding K14: admitted texts whose quantity exceeds binary64 give inf / OverflowError (zone: quantity >= 2^1024 - 2^970 up to rounding)']
+               'an admitted text whose magnitude or quantity exceeds binary64 evaluates to inf without return_int (the IEEE evaluation, not judged '
+               'against the exact quantity) and to ValueError with return_int']
 RULE = ('boundary grid first: 3 signs x 5 magnitudes x (22 prefixes + none) x {b,bit,B} x {IEC,SI,mixed} x return_int; 46 foreign prefixes; 56 magnitude shapes '
         '(integers, decimals, leading/trailing dot, Unicode digits, 17+ digits, >308 digits, subnormal range, malformed); malformed units; 14 unknown unit systems; '
         'trailing-newline and whitespace variants; then random structured cases (72% well-formed for some system, 15% one malformed component, 13% junk); '
         'qemu-img style fields (magnitude, optional unit, optional "(N bytes)" figure, e-notation, decorations); regex-engine cases; float-model cases; '
         'distinct = distinct case JSON; trivial = none')
 LEVEL_TEXT = ('Unbounded theorems (all texts, all unit-system strings): the unit systems are exactly IEC/SI/mixed; a regex of a system matches a text '
-              'iff it is [sign]number[prefix of the system]unit[newline]; every prefix a regex can capture is in the exponent table with the SI/IEC '
+              'iff it is [sign]number[prefix of the system]unit and nothing else (the patterns end in \\Z, translated as an end-of-subject flag); every prefix a regex can capture is in the exponent table with the SI/IEC '
               'exponent and the specified base (1024 IEC, 1000 SI, mixed by trailing i); not-admitted text or unknown system => ValueError; no other '
-              'exception except OverflowError under return_int when the float result is infinite (finding K14; unrestricted statement refuted by a '
-              'witness); an admitted text evaluates to float(number)[/8][*float(base^exp)] and return_int is the ceiling of that float; when the '
+              'exception (the OverflowError of math.ceil(inf) is turned into ValueError by the source and by the translated code; inf without return_int '
+              'is the IEEE evaluation); an admitted text evaluates to float(number)[/8][*float(base^exp)] and return_int is the ceiling of that float; when the '
               'magnitude is an integer, base^exp has <= 53 significant bits and the quantity is an integer < 2^53 the result is exactly that '
               'integer (proved on SpecFloat, no axioms); _extract_bytes returns the "(N bytes)" figure whenever SIZE_RE finds one, otherwise uses '
               'string_to_bytes(IEC, return_int). Tables and the four regexes are regenerated from the source on every run and enter the theorems '
